@@ -61,3 +61,17 @@ Print Assumptions c13_pascal_paginate.
 Example c13_pascal_nonvacuous : let t := [72; 105; 10; 32; 32; 120; 10; 10] in
   Forall dom t /\ last t 0 = 10 /\ exists e, pas_encode t = Some e.
 Proof. exact pas_example. Qed.
+
+(* ---------- the flat text converters: DOS 3.x (high bit set, 0x8D line ends), ProDOS (CR), CP/M and FAT (CR LF) ---------- *)
+From A2 Require Import Pack.Text Pack.TextProofs.
+
+(* with the terminator each packer uses, every text of printable-ASCII lines ending in newlines is accepted and decodes to itself *)
+Theorem c13_flat_text : forall f t, Forall tdom t -> last t 0 = 10 ->
+  exists e, text_encode f (std_term f) t = Some e /\ text_decode f e = t.
+Proof. exact text_roundtrip. Qed.
+Print Assumptions c13_flat_text.
+
+(* a byte from 128 up anywhere in the text makes the converter refuse, whatever the terminator: it never succeeds with altered data *)
+Theorem c13_flat_text_refuses : forall f term a c b, 128 <= c -> text_encode f term (a ++ c :: b) = None.
+Proof. exact text_refuses_non_ascii. Qed.
+Print Assumptions c13_flat_text_refuses.
